@@ -1558,6 +1558,9 @@ class ReceivePackHandler(PackHandler):
                                 ref_status = b"failed to update ref"
                         except all_exceptions:
                             ref_status = b"failed to delete"
+                    elif sha not in self.repo.object_store:
+                        # Never let a ref name an object we don't have
+                        ref_status = b"missing necessary objects"
                     else:
                         try:
                             if not self.repo.refs.set_if_equals(ref, oldsha, sha):
@@ -1591,6 +1594,9 @@ class ReceivePackHandler(PackHandler):
                                 ref_status = b"failed to update ref"
                         except all_exceptions:
                             ref_status = b"failed to delete"
+                    elif sha not in self.repo.object_store:
+                        # Never let a ref name an object we don't have
+                        ref_status = b"missing necessary objects"
                     else:
                         try:
                             if not self.repo.refs.set_if_equals(ref, oldsha, sha):
